@@ -1,4 +1,5 @@
 import SSProps.C01
+import SSLemmas.ExitSelf
 /-!
 # C02 — contexts of a running frame: where the value stack is trimmed
 
@@ -49,3 +50,57 @@ theorem C02_innermost_slot_in_range {α : Type} (hs : List View) (hd : Disjoint 
   rw [List.getElem?_eq_getElem (by omega)]; rfl
 
 example : firstCover (parseTable C01.exTable) 12 = 2 := by decide
+
+
+/-! ### the manager of an exiting context (the repaired F56) -/
+open SS.ExitSelf in
+/-- **C02_exiting_obj**: whatever the signature of the exit method -- any positional, keyword-only and star parameters -- if the
+exit call `exit(self, a1, …)` binds at all, the lookup finds `self`: the object the exit in progress was called on. -/
+theorem C02_exiting_obj (s : Sig) (self : Nat) (rest kwd : List Nat) (ls : Locals)
+    (hb : bindCall s (self :: rest) kwd = some ls) :
+    exitingObj s ls = some self := by
+  unfold bindCall at hb
+  cases hp : s.positional with
+  | cons p ps =>
+    -- the first named positional parameter took `self`
+    simp only [hp, List.zip_cons_cons, List.map_cons] at hb
+    unfold exitingObj
+    simp only [hp]
+    cases hva : s.varargs with
+    | some v =>
+      simp only [hva, Option.some.injEq] at hb
+      subst hb
+      simp [List.cons_append, lookup_cons_self, asObj]
+    | none =>
+      simp only [hva] at hb
+      split at hb
+      · simp only [Option.some.injEq] at hb
+        subst hb
+        simp [List.cons_append, lookup_cons_self, asObj]
+      · exact absurd hb (by simp)
+  | nil =>
+    -- no named positional parameter: everything went into the star tuple
+    simp only [hp, List.zip_nil_left, List.map_nil, List.length_nil, List.drop_zero, List.nil_append] at hb
+    unfold exitingObj
+    simp only [hp]
+    cases hva : s.varargs with
+    | some v =>
+      simp only [hva, Option.some.injEq] at hb
+      subst hb
+      simp [List.cons_append, lookup_cons_self]
+    | none =>
+      simp [hva] at hb
+
+open SS.ExitSelf in
+/-- The lookup before F56 took `getargvalues().args[0]`, which is a keyword-only name when there is no named positional parameter:
+for `def __aexit__(*args, note=…)` it reports the value of `note`, for `def __aexit__(*args)` nothing. -/
+theorem C02_F56_old_code_witness :
+    (bindCall ⟨[], ["note"], some "args"⟩ [0, 1, 2, 3] [77]).map (exitingObjOld ⟨[], ["note"], some "args"⟩) = some (some 77)
+    ∧ (bindCall ⟨[], ["note"], some "args"⟩ [0, 1, 2, 3] [77]).map (exitingObj ⟨[], ["note"], some "args"⟩) = some (some 0)
+    ∧ (bindCall ⟨[], [], some "args"⟩ [0, 1, 2, 3] []).map (exitingObjOld ⟨[], [], some "args"⟩) = some none := by decide
+
+open SS.ExitSelf in
+/-- An exit method that has unbound its own first parameter (`del self`) leaves nothing to find: `None`, not another object. -/
+theorem C02_exiting_obj_deleted (p : String) (ps kw : List String) (va : Option String) (ls : Locals)
+    (h : lookup ls p = none) : exitingObj ⟨p :: ps, kw, va⟩ ls = none := by
+  simp [exitingObj, h, asObj]
